@@ -2,6 +2,7 @@
    and transfer of the C12 theorem to the regenerated program. *)
 From Coq Require Import ZArith Arith Lia List Bool.
 From Amc Require Import Hint HintPrims.
+From Amc Require SetModel.
 From Amc.Gen Require Import HintGen.
 Import ListNotations.
 Local Open Scope Z_scope.
@@ -47,4 +48,24 @@ Corollary C12_on_generated cmp l h v :
   insert_hint_gen cmp l (Z.of_nat h) v = lift (insert_val cmp l v).
 Proof. intros H1 H2 H3 Hs Hh. rewrite insert_hint_tv by assumption. f_equal. apply hint_is_hint; assumption. Qed.
 
+(* ---- the other regenerated FlatSet members: insert_val (the primitive [set_insert] of insert_hint), find, erase(key) ------ *)
+Lemma lower_bound_full cmp l v : lower_bound cmp l 0 (Z.of_nat (length l)) v = Z.of_nat (lb cmp l v).
+Proof. change 0 with (Z.of_nat 0). rewrite lower_bound_nat, firstn_all. reflexivity. Qed.
 
+Theorem insert_val_tv cmp l v :
+  insert_val_gen cmp l v = (fst (insert_val cmp l v), Z.of_nat (snd (insert_val cmp l v)),
+                            Nat.eqb (lb cmp l v) (length l) || cmp v (nth (lb cmp l v) l 0)).
+Proof. unfold insert_val_gen, insert_val. cbv zeta. rewrite lower_bound_full, eqb_nat, deref_nat.
+  destruct (Nat.eqb (lb cmp l v) (length l) || cmp v (nth (lb cmp l v) l 0)); [rewrite vec_insert_nat|]; reflexivity. Qed.
+(* so the primitive used by the regenerated insert_hint is the regenerated insert_val *)
+Corollary set_insert_is_generated cmp l v : set_insert cmp l v = (fst (fst (insert_val_gen cmp l v)), snd (fst (insert_val_gen cmp l v))).
+Proof. rewrite insert_val_tv. unfold set_insert. destruct (insert_val cmp l v); reflexivity. Qed.
+
+Theorem find_tv cmp l v : find_gen cmp l v = Z.of_nat (SetModel.fs_find cmp l v).
+Proof. unfold find_gen, SetModel.fs_find. cbv zeta. rewrite lower_bound_full, eqb_nat, deref_nat.
+  destruct (Nat.eqb (lb cmp l v) (length l) || cmp v (nth (lb cmp l v) l 0)); reflexivity. Qed.
+
+Theorem erase_key_tv cmp l v :
+  erase_key_gen cmp l v = (fst (SetModel.fs_erase_key cmp l v), Z.of_nat (snd (SetModel.fs_erase_key cmp l v))).
+Proof. unfold erase_key_gen, SetModel.fs_erase_key. cbv zeta. rewrite find_tv, eqb_nat.
+  destruct (Nat.eqb (SetModel.fs_find cmp l v) (length l)); [reflexivity|]. unfold vec_erase, SetModel.remove_at. rewrite Nat2Z.id. reflexivity. Qed.
